@@ -245,6 +245,10 @@ fn int_letters() -> Vec<Vec<u8>> {
         vec![0x80, 0, 0, 0, 0, 0, 0, 0, 0],
         vec![0x00, 0x00, 0x01],
         vec![0xff, 0xff],
+        // a redundant leading zero on an atom of exactly width + 1 bytes (5 and 9)
+        vec![0x00, 0x40, 0, 0, 0],
+        vec![0x00, 0x40, 0, 0, 0, 0, 0, 0, 0],
+        vec![0x00, 0x7f, 0xff, 0xff, 0xff, 0xff, 0xff, 0xff, 0xff],
     ]
 }
 
@@ -622,7 +626,7 @@ fn layer4(rep: &Report, env: &Env) {
 
 fn run(rep: &Report) {
     let env = drive::env();
-    rep.set_rule("generator outputs in four layers x flag subsets of {NO_UNKNOWN_CONDS, STRICT_ARGS_COUNT, COST_CONDITIONS} x {EmptyVisitor, MempoolVisitor} (signatures not validated): L1 = one condition: 52 opcode atoms x every argument list of length <= 2 (quick) / <= 3 (thorough) over 27 universal letters x {nil, 01} terminator; L1m = SEND/RECEIVE x all 64 modes + 6 malformed modes x 3 message sizes x type-correct commitment with every single off-type substitution, missing/extra argument; L1i = 13 integer conditions x 17 integer atoms x {no extra arg, extra, nil extra}, CREATE_COIN x 3 puzzle hashes x 17 amounts x 11 memo shapes x tail x terminator, 17 spend amount atoms; L2 = spend A with every ordered list of <= 2 of the interaction letters, alone or with B (child, listed after or before A) / C (same puzzle hash) / D (double spend) carrying <= 1 letter (thorough: + every ordered triple over one representative letter per condition kind); L2x = a coin with parent id = puzzle hash messaging itself under every pair of source modes (mode bits are part of the commitment); L2s = every list of 1..2 (thorough: 3) spends over amount {0,1,1000,2^63,2^64-1} x RESERVE_FEE {none,1,5000,2^64-1} x CREATE_COINs {none; 1; 2^64-1; 2^64-1 twice; 2^64-1 twice + 1} (bundle totals and a single spend's outputs crossing 2^64); L2k = every ordered triple of locks inside each after/before family (82+86, 80+84, 83+87, 81+85; 6 values each); L3 = structural defects at the 5 list positions; L4 = 1023/1024/1025 announcements, 5999/6000/6001 spends with LIMIT_SPENDS. distinct = distinct accepted reference summaries under the empty flag set.");
+    rep.set_rule("generator outputs in four layers x flag subsets of {NO_UNKNOWN_CONDS, STRICT_ARGS_COUNT, COST_CONDITIONS} x {EmptyVisitor, MempoolVisitor} (signatures not validated): L1 = one condition: 52 opcode atoms x every argument list of length <= 2 (quick) / <= 3 (thorough) over 27 universal letters x {nil, 01} terminator; L1m = SEND/RECEIVE x all 64 modes + 6 malformed modes x 3 message sizes x type-correct commitment with every single off-type substitution, missing/extra argument; L1i = 13 integer conditions x 20 integer atoms x {no extra arg, extra, nil extra}, CREATE_COIN x 3 puzzle hashes x 20 amounts x 11 memo shapes x tail x terminator, 20 spend amount atoms; L2 = spend A with every ordered list of <= 2 of the interaction letters, alone or with B (child, listed after or before A) / C (same puzzle hash) / D (double spend) carrying <= 1 letter (thorough: + every ordered triple over one representative letter per condition kind); L2x = a coin with parent id = puzzle hash messaging itself under every pair of source modes (mode bits are part of the commitment); L2s = every list of 1..2 (thorough: 3) spends over amount {0,1,1000,2^63,2^64-1} x RESERVE_FEE {none,1,5000,2^64-1} x CREATE_COINs {none; 1; 2^64-1; 2^64-1 twice; 2^64-1 twice + 1} (bundle totals and a single spend's outputs crossing 2^64); L2k = every ordered triple of locks inside each after/before family (82+86, 80+84, 83+87, 81+85; 6 values each); L3 = structural defects at the 5 list positions; L4 = 1023/1024/1025 announcements, 5999/6000/6001 spends with LIMIT_SPENDS. distinct = distinct accepted reference summaries under the empty flag set.");
     rep.assume("reference model mc::refcond implements DESIGN.md Appendix A; valid public keys are exactly the harness's three keys (other 48-byte letters are the infinity encoding and an off-curve string, self-checked at start)");
     rep.assume("only accept/reject, the canonical summary and the condition cost are compared, never error codes");
     let flags = all_rflags(&[false, true], false);
